@@ -11,6 +11,7 @@ import (
 	"net"
 	"net/netip"
 	"os"
+	"strings"
 	"time"
 
 	"github.com/TheManticoreProject/Manticore/zz_verif/vrt"
@@ -364,6 +365,17 @@ type StreamConn struct {
 
 // Dial connects to a simulated listener (used by the harness clients).
 func Dial(network, address string) (Conn, error) {
+	if strings.HasPrefix(network, "udp") {
+		ra, err := net.ResolveUDPAddr(network, address)
+		if err != nil {
+			return nil, err
+		}
+		c, err := DialUDP(network, nil, ra)
+		if err != nil {
+			return nil, err
+		}
+		return c, nil
+	}
 	a, err := net.ResolveTCPAddr(network, address)
 	if err != nil {
 		return nil, err
